@@ -49,11 +49,13 @@ func verifC04Rules() {
 	class, desc := ErrIllegalParameter, byte(47)
 	what := ""
 	sealIt := true
+	keyless := false
 	var rec []byte
 
 	switch vInt(1, 14) {
 	case 1:
 		what = "R1 ech_outer_extensions in the outer hello"
+		keyless = true
 		outer.exts = append([]vExt{vOuterExtensions([]uint16{51})}, outer.exts...)
 		echIdx++
 	case 2:
@@ -62,33 +64,53 @@ func verifC04Rules() {
 		sealIt = false
 	case 3:
 		what = "R3 unknown ECH type"
+		keyless = true
 		t := vByte()
 		vAssume(t >= 2)
 		outer.exts[echIdx] = vExt{0xfe0d, vCat([]byte{t}, vBytes(vInt(0, 2)))}
 		sealIt = false
 	case 4:
 		what = "R4 authentic payload but outer SNI is not the public name"
-		other := append([]byte{}, name...)
-		d := vByte()
-		vAssume(d != 0)
-		other[vInt(0, len(other)-1)] ^= d
-		outer.exts[0] = vSNI(other)
+		switch vInt(0, 3) {
+		case 0: // one byte differs
+			other := append([]byte{}, name...)
+			d := vByte()
+			vAssume(d != 0)
+			other[vInt(0, len(other)-1)] ^= d
+			outer.exts[0] = vSNI(other)
+		case 1: // a trailing dot
+			outer.exts[0] = vSNI(vCat(name, []byte(".")))
+		case 2: // a proper prefix
+			outer.exts[0] = vSNI(name[:len(name)-1])
+		case 3: // no server name at all
+			outer.exts = outer.exts[1:]
+			echIdx--
+		}
 	case 5:
 		what = "R5 inner hello lacks the inner-type ECH extension"
-		inner.exts = []vExt{innerExts[0], innerExts[2]}
+		if vBool() {
+			inner.exts = []vExt{innerExts[0], innerExts[2]}
+		} else { // it carries an outer-type ECH extension instead
+			inner.exts = []vExt{innerExts[0], vECHOuter(1, 1, k.id, make([]byte, 32), vBytes(3)), innerExts[2]}
+		}
 	case 6:
 		what = "R6 inner hello does not offer TLS 1.3"
-		v := vUint16()
-		vAssume(v < 0x0304)
-		inner.exts = []vExt{innerExts[0], innerExts[1], vVersions(v)}
+		v, v2 := vUint16(), vUint16()
+		vAssume(v < 0x0304 && v2 < 0x0304)
+		if vBool() {
+			inner.exts = []vExt{innerExts[0], innerExts[1], vVersions(v)}
+		} else {
+			inner.exts = []vExt{innerExts[0], innerExts[1], vVersions(v, v2)}
+		}
 	case 7:
 		what = "R7 non-zero padding"
 		pad = vBytes(3) // any padding that is not all zero (several non-zero bytes included)
 		vAssume(pad[0] != 0 || pad[1] != 0 || pad[2] != 0)
 	case 8:
-		what = "R8a outer-extension list with odd length"
+		what = "R8a malformed outer-extension list (odd length, length beyond the data, empty data, bytes after the list)"
 		class, desc = ErrDecodeError, 50
-		inner.exts = append(inner.exts, vExt{0xfd00, []byte{3, 0, 51, 0}})
+		shapes := [][]byte{{3, 0, 51, 0}, {4, 0, 51}, {}, {2, 0, 51, 0xAA}}
+		inner.exts = append(inner.exts, vExt{0xfd00, shapes[vInt(0, 3)]})
 	case 9:
 		what = "R8b references out of order"
 		inner.exts = append(inner.exts, vOuterExtensions([]uint16{10, 51}))
@@ -112,6 +134,7 @@ func verifC04Rules() {
 		inner.exts = append(inner.exts, vOuterExtensions([]uint16{51}), vOuterExtensions([]uint16{10}))
 	case 14:
 		what = "R10 first record is not a handshake record / not a ClientHello"
+		keyless = true
 		class, desc = ErrUnexpectedMessage, 10
 		sealIt = false
 		body := vHandshake(outer.body())
@@ -145,7 +168,11 @@ func verifC04Rules() {
 		}
 	}
 	tr := newVTransport(rec)
-	c, err := NewConn(context.Background(), tr, WithKeys([]Key{k.key()}))
+	opts := []Option{WithKeys([]Key{k.key()})}
+	if keyless && vBool() {
+		opts = nil // R1, R3 and R10 do not depend on the server holding keys
+	}
+	c, err := NewConn(context.Background(), tr, opts...)
 	vReach("ran")
 	vCheckAbort(tr, c, err, class, desc, what)
 	if c != nil {
@@ -164,7 +191,7 @@ func verifC04RetryRules() {
 	hrr := vServerHello(vHRRRandom, st.first.outer.sid)
 	n, err := c.Write(hrr)
 	vAssert(err == nil && n == len(hrr), "HelloRetryRequest forwarded")
-	variant := vInt(1, 9)
+	variant := vInt(1, 14)
 	rec, _, class, desc := vSecondHello(st, variant)
 	before := len(tr.out)
 	tr.in = append(tr.in, rec...)
